@@ -190,10 +190,11 @@ theorem vendorHelper_names_ok (vid : Bytes) (hv : vid.all wordByte = true) :
   rcases hdc with rfl | rfl | rfl | rfl | rfl | rfl <;>
     exact ⟨by unfold declNameOK; rw [if_neg (by simp)]; exact key _ (by decide), List.prefix_append _ _⟩
 
-/-- every declared name of an accepted dictionary is well-formed, provided the names of the `-ref` options
-    do not normalise to something starting with a digit -/
-theorem names_ok' {d : Dictionary} {o : Options} {out : Output} (h : generate Cfg.repaired d o = .ok out)
-    (hr : ∀ r ∈ o.refs, lexesAsIdent (identifier r.1) = true) : ∀ dc ∈ out.decls, declNameOK dc := by
+/-- every declared name of an accepted dictionary is well-formed (for the constants of a `-ref` option:
+    `generate` refuses, as go/format does, a name that normalises to something starting with a digit as
+    soon as a VALUE is declared for it — `RunFacts.extNames`) -/
+theorem names_ok' {d : Dictionary} {o : Options} {out : Output} (h : generate Cfg.repaired d o = .ok out) :
+    ∀ dc ∈ out.decls, declNameOK dc := by
   obtain ⟨evs, F⟩ := runFacts h
   intro dc hdc
   obtain ⟨s, hs, hdc⟩ := List.mem_flatMap.1 hdc
@@ -217,8 +218,8 @@ theorem names_ok' {d : Dictionary} {o : Options} {out : Output} (h : generate Cf
       rw [if_neg (by simp)]
       simp only
       rw [List.append_assoc, hxn]
-      exact goIdent_append (ident_word _) (value_suffix_word _) (hr e ((mem_sortStable _ _ _).1 he))
-        (fun _ => value_suffix_goIdent _)
+      exact goIdent_append (ident_word _) (value_suffix_word _)
+        (F.extNames e he (List.ne_nil_of_mem hx)) (fun _ => value_suffix_goIdent _)
   · exact (attrDecls_names_ok false b _ (F.attrsValid b hb).2 dc hdc).1
   · exact (vendorHelper_names_ok _ (ident_word _) dc hdc).1
   · exact (attrDecls_names_ok true b _ (F.evAttrsValid v hv b hb).2.1 dc hdc).1
@@ -280,7 +281,7 @@ theorem dot_imports_exact' {cfg : Cfg} {d : Dictionary} {o : Options} {out : Out
     (hd : (o.refs.map (·.1)).Nodup) (p : Bytes) :
     Imp.dot p ∈ out.imports ↔
       ∃ r ∈ o.refs, r.2 = p ∧ ∃ s ∈ out.sections, s.1 = .ext r.1 ∧ ∃ dc ∈ s.2, dc.role = .extValue := by
-  obtain ⟨seen, evs0, vimps, _, _, _, _, hsec, himp⟩ := generate_ok_full h
+  obtain ⟨seen, evs0, vimps, _, _, _, _, hsec, himp, _⟩ := generate_ok_full h
   have memE : ∀ e, e ∈ gExts o ↔ e ∈ o.refs := fun e => mem_sortStable _ _ _
   have h1 : Imp.dot p ∈ out.imports ↔ ∃ e ∈ gExts o, gExtVals cfg d o e ≠ [] ∧ e.2 = p := by
     rw [himp]
@@ -329,7 +330,7 @@ theorem dot_imports_exact' {cfg : Cfg} {d : Dictionary} {o : Options} {out : Out
 
 theorem imports_nodup' {cfg : Cfg} {d : Dictionary} {o : Options} {out : Output} (h : generate cfg d o = .ok out) :
     out.imports.Nodup := by
-  obtain ⟨seen, evs0, vimps, _, _, _, _, _, himp⟩ := generate_ok_full h
+  obtain ⟨seen, evs0, vimps, _, _, _, _, _, himp, _⟩ := generate_ok_full h
   rw [himp]
   have hstd : stdImports.Nodup := by decide
   have hstdm : ∀ i ∈ stdImports, ∃ q, i = Imp.std q := by
@@ -513,7 +514,7 @@ theorem attrValues_spec' (n : Bytes) (l : List Value) :
 
 theorem std_imports_canonical' {cfg : Cfg} {d : Dictionary} {o : Options} {out : Output} (h : generate cfg d o = .ok out) :
     (out.imports.filter (fun i => match i with | .std _ => true | _ => false)).Sublist stdImports := by
-  obtain ⟨seen, evs0, vimps, _, _, _, _, _, himp⟩ := generate_ok_full h
+  obtain ⟨seen, evs0, vimps, _, _, _, _, _, himp, _⟩ := generate_ok_full h
   rw [himp]
   simp only [List.filter_append]
   have h2 : ∀ c : Bool, (if c = true then [Imp.radius] else []).filter (fun i => match i with | .std _ => true | _ => false) = [] := by
